@@ -270,8 +270,10 @@ def c04_skippable(case, tr, res):
     if not ok:
         return
     tr.cnt['c04_skippable_runs'] += 1
-    if res['outcome'] == 'error' and getattr(tr, 'advlog', None):
-        w = res['exc'].get('where') or {}
+    w = (res.get('exc') or {}).get('where') or {}
+    rejected = res['outcome'] == 'error' and res['exc']['type'] == 'RuntimeError' and \
+        w.get('func') in ('allocate_task_to_cluster', '_process_current_schedule')
+    if rejected and getattr(tr, 'advlog', None):
         tr.violate('C04', 'run_aborted_by_skippable_proposal', exc=res['exc']['type'],
                    func=w.get('func'), pairing_family=case['pairing'],
                    rewrites=len(tr.advlog), msg=res['exc']['msg'][:100])
